@@ -518,6 +518,19 @@ func TestGrid(t *testing.T) {
 			}
 		}
 	}
+	vk.CountConstructed(evals, nontriv, "grid")
+	if shard == 0 {
+		vk.AddSample(map[string]any{"grid": fmt.Sprintf("all masks h<=%d x all (from,to) in {path, path+1, path-1}^2; Decode: all masks h<=3 x all subsets x 3 bitmap shapes", maxH),
+			"example": map[string]any{"mask": "0x2d", "from": "0x400000030", "to": "0x1800000038", "allpaths": fmt.Sprintf("%#x", bmtree.AllPaths(0x2d, 0x400000030, 0x1800000038))}})
+	}
+	vk.MarkExhaustive(fmt.Sprintf("AllPaths: all masks h<=%d x all (from,to) from {path, path+-1}; Decode: all masks h<=3 x all subsets", maxH))
+}
+
+// TestLast runs at the very end of the process: huge inputs (the maximum bitmap / string) and the regression cases of that size come last, so that
+// what they leave behind in the library cannot mask anything the ordinary cases would have met.
+func TestLast(t *testing.T) {
+	vk.SetPhase("last")
+	shard := 0
 	if shard == 0 { // the bitmap argument is the head of a 2^25-word array: masks of every height <= 8 on each description
 		for v := 0; v < gen.MaxVariants; v++ {
 			for mask := int32(1); mask < 1<<9; mask++ {
@@ -527,10 +540,5 @@ func TestGrid(t *testing.T) {
 			}
 		}
 	}
-	vk.CountConstructed(evals, nontriv, "grid")
-	if shard == 0 {
-		vk.AddSample(map[string]any{"grid": fmt.Sprintf("all masks h<=%d x all (from,to) in {path, path+1, path-1}^2; Decode: all masks h<=3 x all subsets x 3 bitmap shapes", maxH),
-			"example": map[string]any{"mask": "0x2d", "from": "0x400000030", "to": "0x1800000038", "allpaths": fmt.Sprintf("%#x", bmtree.AllPaths(0x2d, 0x400000030, 0x1800000038))}})
-	}
-	vk.MarkExhaustive(fmt.Sprintf("AllPaths: all masks h<=%d x all (from,to) from {path, path+-1}; Decode: all masks h<=3 x all subsets", maxH))
+	checker.RegressLast(t)
 }
